@@ -91,12 +91,16 @@ def collide(rng, node, p=0.7):
     return out
 
 
-def gen_program(rng, world, sites, faulty):
+def gen_program(rng, world, sites, faulty, tier="quick"):
     ninst = len(world["instances"])
     prog = []
-    for _ in range(rng.choice([1, 1, 2, 2, 3])):
+    refs = W.all_ref_strings(world["root"]) or ["#"]
+    for _ in range(rng.choice([1, 1, 2, 2, 3] if tier == "quick" else [1, 2, 3, 4, 5])):
         kind = rng.choice(["exhaust", "exhaust", "take_close", "take_drop", "take_cycle", "is_valid", "validate",
-                           "best_match", "consumer_raises", "tree"])
+                           "best_match", "consumer_raises", "tree", "resolve", "resolving"])
+        if kind in ("resolve", "resolving"):
+            prog.append({"op": kind, "ref": rng.choice(refs), "body_raises": rng.random() < 0.3})
+            continue
         op = {"op": kind, "inst": rng.randrange(ninst)}
         if kind in ("take_close", "take_drop", "take_cycle", "consumer_raises"):
             op["k"] = rng.choice([1, 1, 2, 2, 3, 4])
@@ -139,7 +143,7 @@ def generate(rng, tier="quick"):
         cfg = gen_cfg(rng, worlds[windex[i]], 0.3 if faulty else 0.0)
         if i in shared:
             cfg["base_mode"] = actors[0]["cfg"]["base_mode"]
-        actors.append({"world": windex[i], "cfg": cfg, "program": gen_program(rng, base, sites, faulty),
+        actors.append({"world": windex[i], "cfg": cfg, "program": gen_program(rng, base, sites, faulty, tier),
                        "share_root_with": 0 if i in shared else None})
     if mode == "coop":
         bias = rng.choice(["uniform", "runs", "uniform"])
